@@ -261,7 +261,7 @@ def Op.guard (s : IState) : Op → Bool
   | .fork f h' nm0 p _ =>
     match findInst s f with
     | none => false
-    | some i => !(i.headUids.contains h') && (p != 0 || nm0.isNone)
+    | some i => !(i.headUids.contains h') && (p != 0 || nm0.isNone) && !i.status.done
   | .delHead f h => (reg s (f, h)).isNone
   | .dropHeads _ => true
   | .rmHead f h => (want s (f, h)).isNone
@@ -331,6 +331,9 @@ structure IndexOK (s : IState) : Prop where
   exact : Exact s
 
 def NoStopping (s : IState) : Prop := ∀ i ∈ s.insts, i.status ≠ .stopping
+
+/-- finished or failed instances hold no position -/
+def NoPos (s : IState) : Prop := ∀ f i, findInst s f = some i → i.status.done = true → i.heads = []
 
 def AllGuards : IState → List Op → Prop
   | _, [] => True
